@@ -186,6 +186,8 @@ def r3_order_key(ctx):
         if isinstance(st, ast.Assign) and isinstance(st.targets[0], ast.Name):
             nm = st.targets[0].id
             it_ok = any(isinstance(l, ast.For) and isinstance(l.iter, ast.Name) and l.iter.id == nm for l in walk_local(fn.node))
+        elif isinstance(st, ast.For) and any(x is c for x in ast.walk(st.iter)):
+            it_ok = True  # for ... in sorted(...): the sorted sequence is iterated directly
         ctx.check(
             w_ok and it_ok and F is not None,
             'C01.R3',
